@@ -28,6 +28,7 @@ FORMATS = {
     "rgb565":   (16, 16, 0, 31, 63, 31, 11, 5, 0),
     "rgb555":   (16, 15, 0, 31, 31, 31, 10, 5, 0),
     "bgr233":   (8, 8, 0, 7, 7, 3, 0, 3, 6),
+    "rgb888d32": (32, 32, 0, 255, 255, 255, 16, 8, 0),      # depth 32 with 24 significant bits: RFC 6143 wants a 4-byte CPIXEL
 }
 # encodings the model currently covers for each stage of the development
 MODEL_ENCS = ["raw", "rre", "corre", "hextile", "copyrect", "zlib", "zrle", "trle", "tight", "ultra"]
@@ -530,13 +531,18 @@ def sync_extraction(pid):
 
 
 PROBE_CP15 = ["case 0 probe cpixel15", "init 4 2 16 16 0 31 63 31 11 5 0 16 31 " + ALL_ENCS, "fixed 255",
-              "b 00000001", "b 000000000004000200000010", "z 0 1 1 00" + "1111222233334444555566667777" + "8888", "run"]
+              "b 00000001", "b 000000000004000200000010", "z 5 1 1 00" + "1111222233334444555566667777" + "8888", "run"]
 
+
+# a Zlib rectangle followed by a ZRLE rectangle of a server that keeps one deflate stream per encoding
+PROBE_ZSTREAM = ["case 0 probe zlib then zrle", "init 2 1 32 24 0 255 255 255 16 8 0 32 255 " + ALL_ENCS, "fixed 4095", "fill 5",
+                 "b 00000001", "b 000000000002000100000006", "z 0 1 1 1122330044556600",
+                 "b 00000001", "b 000000000002000100000010", "z 5 1 1 00112233445566", "run"]
 
 # a 65x1 rectangle in a 24-in-32-bit format whose last 3-byte CPIXEL ends exactly at the end of the scratch area
 PROBE_CP24 = ["case 0 probe cpixel24 tail", "init 65 1 32 24 0 255 255 255 16 8 0 32 255 " + ALL_ENCS, "fixed 383", "fill 5",
               "b 00000001", "b 000000000041000100000010",
-              "z 0 1 1 80" + "11223300" * 63 + "112233" + "ff" * 129 + "00" + "00445566", "run"]
+              "z 5 1 1 80" + "11223300" * 63 + "112233" + "ff" * 129 + "00" + "00445566", "run"]
 
 
 def probe_fixes(cexe, mexe):
@@ -553,6 +559,12 @@ def probe_fixes(cexe, mexe):
     rc2, mout, merr = vlib.run_driver([mexe, "dec"], script, timeout=120, unlimited_stack=True)
     if rc1 == 0 and cout == mout and "end ok" in cout:
         mask |= 256
+    # notes/fix_C07_3.diff (ZRLE inflate stream of its own)
+    script = "\n".join(PROBE_ZSTREAM) + "\n"
+    rc1, cout, cerr = vlib.run_driver(cexe, script, timeout=120)
+    rc2, mout, merr = vlib.run_driver([mexe, "dec"], script, timeout=120, unlimited_stack=True)
+    if rc1 == 0 and cout == mout and "end ok" in cout:
+        mask |= 2048
     return mask
 
 
@@ -658,7 +670,7 @@ def zrle_oversize(case):
     bypp = case["bpp"] // 8
     rb = {1: 1, 2: 2, 4: 3 if case["fmt"] in ("rgb888", "bgr888", "rgb888up") else 4}.get(bypp, 4)
     for i, l in enumerate(tok):
-        if l.startswith("z 0 ") and i > 0 and tok[i - 1].startswith("b ") and tok[i - 1].endswith("00000010"):
+        if l.startswith("z 5 ") and i > 0 and tok[i - 1].startswith("b ") and tok[i - 1].endswith("00000010"):
             hdr = tok[i - 1][-24:]
             w, h = int(hdr[8:12], 16), int(hdr[12:16], 16)
             if len(l.split()[4]) // 2 > 2 * w * h * rb:
@@ -669,10 +681,16 @@ def zrle_oversize(case):
 def features_of(case, msg):
     names = set(ALL_ENCS.split())
     encs = sorted(set(f.split("/")[0] for f in case["feats"]) |
-                  set(p for f in case["feats"] if f.startswith(("live/", "corpus/")) for p in f.split("/")[1:] if p in names))
+                  set(p for f in case["feats"] if f.startswith(("live/", "corpus/", "tileseq/")) for p in f.split("/")[1:] if p in names))
+    if any(f.startswith("live/zywrle") for f in case["feats"]):
+        encs = sorted(set(encs) | {"zrle"})      # ZYWRLE runs through the ZRLE decoder and its inflate stream
     cause = "other"
     if not (FIXMASK & 128) and case["bpp"] == 16 and case.get("sigmax", 255) <= 31 and ("zrle" in encs or "trle" in encs):
         cause = "cpixel15"          # HandleZRLE15/HandleTRLE15 selected by the SERVER's native greenMax
+    elif case["fmt"] == "rgb888d32" and ("zrle" in encs or "trle" in encs):
+        cause = "cpixel_depth32"             # the client picks the 3-byte CPIXEL instance from the colour masks alone
+    elif not (FIXMASK & 2048) and "zrle" in encs and "zlib" in encs:
+        cause = "zlib_zrle_shared_stream"    # one inflate stream in the client for two server streams
     elif "zrle" in encs and zrle_oversize(case):
         cause = "zrle_oversize"
     return {"encs": ",".join(encs), "fmt": case["fmt"], "bpp": case["bpp"], "cause": cause, "what": msg[:60]}
@@ -730,7 +748,7 @@ def subencodings(tok, hist):
                 key = "tight:copy"
             if int(body[:2], 16) & 15:
                 hist["tight:stream-reset"] = hist.get("tight:stream-reset", 0) + 1
-        elif enc == 16 and i + 1 < len(tok) and tok[i + 1].startswith("z 0 "):
+        elif enc == 16 and i + 1 < len(tok) and tok[i + 1].startswith("z 5 "):
             p = tok[i + 1].split()
             if len(p) > 4 and len(p[4]) >= 2:
                 t_ = int(p[4][:2], 16)
@@ -746,13 +764,20 @@ def gen_live(ctx, k):
     bypp = rng.choice([1, 2, 4, 4])
     W, H = rng.choice(DIMS + BIG_DIMS), rng.choice(DIMS + [64, 65])
     enc = rng.choice(["raw", "rre", "corre", "hextile", "zlib", "zrle", "trle", "tight", "ultra",
-                      "tight copyrect hextile", "zrle hextile raw"])
+                      "tight copyrect hextile", "zrle hextile raw", "zywrle", "zywrle zrle"])
     L = ["case %d live %s %dx%dx%d" % (k, enc.replace(" ", "+"), W, H, bypp),
          "live %d %d %d %d %d %s" % (W, H, bypp, rng.randrange(1 << 30), rng.randrange(5), enc)]
     for _ in range(rng.choice([0, 1, 2])):
         L.append("livemod %d %d" % (rng.randrange(1 << 30), rng.choice([1, 2, 5])))
     first = enc.split()[0]
-    return dict(tok=L, lines=L, expect=[], feats=["live/" + first], fmt="server", bpp=8 * bypp, W=W, H=H,
+    feats = ["live/" + first]
+    for _ in range(rng.choice([0, 0, 1, 2])):
+        # the application changes its encoding list in mid-session (SetFormatAndEncodings), the screen changes again
+        enc2 = rng.choice(["raw", "hextile", "zlib", "zrle", "trle", "tight", "ultra", "zlib hextile", "zrle zlib"])
+        L.append("liveenc " + enc2)
+        L.append("livemod %d %d" % (rng.randrange(1 << 30), rng.choice([1, 2, 5])))
+        feats.append("live/" + enc2.split()[0])
+    return dict(tok=L, lines=L, expect=[], feats=feats, fmt="server", bpp=8 * bypp, W=W, H=H,
                 sigmax=31 if bypp == 2 else 255, tokens=True)
 
 
@@ -769,7 +794,7 @@ def run_live(ctx, cexe, cases):
     for i, c in enumerate(cases):
         il = parts[i][1] if i < len(parts) else []
         want = len(c["tok"]) - 1
-        bad = [l for l in il if " equal=1" not in l]
+        bad = [l for l in il if " equal=1" not in l or " rc=0 " in l]     # rc=0: HandleRFBServerMessage returned FALSE
         if len(il) < want or bad:
             fails.append((i, "pairing with this repository's server: client framebuffer differs from the server's (%s)" %
                           (bad[0][:80] if bad else "client stopped"), il))
